@@ -1,7 +1,8 @@
 // Harness for C17 (SEI messages survive write/parse round trips).
 //
-//	c17 corr   -seed S -n N -exh L   : cases + implementation observables for the model diff
-//	c17 search -seed S -n N -exh L   : evaluates the property itself on the implementation
+//	c17 corr   -seed S -n N -nt T -nh H -exh L   : cases + implementation observables for the model diff
+//	c17 search -seed S -n N -nt T -nh H -exh L   : evaluates the property itself on the implementation
+//	(n: message lists, nt: typed message values, nh: typed message HISTORIES, see history.go)
 package main
 
 import (
@@ -189,7 +190,7 @@ func emitX(id int, data []byte) {
 	fmt.Fprintf(out, "X\tx%d\t%s\t%s\t%s\n", id, hx.Hex(data), xc, xl)
 }
 
-func corr(seed uint64, n, nt, exh int) {
+func corr(seed uint64, n, nt, nh, exh int) {
 	id := 0
 	// exhaustive small scope: one message, every payload over the escape alphabet up to exh bytes
 	for _, t := range []uint{0, 3, 128, 255} {
@@ -234,6 +235,7 @@ func corr(seed uint64, n, nt, exh int) {
 		id++
 	}
 	corrTyped(hx.NewRng(seed^0x7C17), &id, nt)
+	corrHistory(hx.NewRng(seed^0x417C17), &id, nh)
 }
 
 // ---------------------------------------------------------------- search
@@ -371,7 +373,7 @@ func checkList(ms []*rawMsg) {
 	}
 }
 
-func search(seed uint64, n, nt, exh int) {
+func search(seed uint64, n, nt, nh, exh int) {
 	// small scope first (so that a failing input, if any, is reported with a minimal witness):
 	// all pairs of messages over boundary types with payloads up to 2 bytes
 	for _, t1 := range []uint{0, 3, 0x80, 255} {
@@ -400,6 +402,10 @@ func search(seed uint64, n, nt, exh int) {
 			checkTypedList(rt)
 		}
 	}
+	rh := hx.NewRng(seed ^ 0x4EA17)
+	for i := 0; i < nh; i++ {
+		checkHistory(rh, i)
+	}
 	fmt.Fprintf(out, "EVALS\t%d\n", evals)
 }
 
@@ -413,13 +419,14 @@ func main() {
 	n := fs.Int("n", 1000, "")
 	exh := fs.Int("exh", 3, "")
 	nt := fs.Int("nt", 1000, "")
+	nh := fs.Int("nh", 1000, "")
 	_ = fs.Parse(os.Args[2:])
 	defer out.Flush()
 	switch os.Args[1] {
 	case "corr":
-		corr(*seed, *n, *nt, *exh)
+		corr(*seed, *n, *nt, *nh, *exh)
 	case "search":
-		search(*seed, *n, *nt, *exh)
+		search(*seed, *n, *nt, *nh, *exh)
 	default:
 		fmt.Fprintln(os.Stderr, "unknown sub-command")
 		out.Flush()
